@@ -11,6 +11,8 @@ var checks = map[string]func(*Ctx){
 	"C12":    runC12,
 	"C13":    runC13,
 	"C10":    runC10,
+	"C09":    runC09,
+	"C08":    runC08,
 	"C06":    runC06,
 	"C07":    runC07,
 	"C05":    runC05,
@@ -28,6 +30,14 @@ func main() {
 	if len(os.Args) < 3 {
 		fmt.Println("usage: vcheck <property> <quick|thorough>")
 		os.Exit(2)
+	}
+	if os.Args[1] == "stress" {
+		runStress(os.Args[2:])
+		return
+	}
+	if os.Args[1] == "child" {
+		runChild(os.Args[2:])
+		return
 	}
 	id, tier := os.Args[1], os.Args[2]
 	if tier != "quick" && tier != "thorough" {
